@@ -173,14 +173,15 @@ const (
 	w8ResetNoClose // Reset without Close, then a complete frame
 	w8SinkFails
 	w8SlowSink
-	w8ReuseOtherConc // Close -> Reset -> Apply(another concurrency level) -> second frame
+	w8ReuseOtherConc   // Close -> Reset -> Apply(another concurrency level) -> second frame
+	w8ReuseNewCallback // Close -> Reset -> Apply(another OnBlockDone callback, another level) -> second frame
 	numW8Scripts
 )
 
-var w8Names = []string{"partition", "flush", "readfrom", "close-reset-reuse", "reset-without-close", "sink-fails", "slow-sink", "reuse-with-other-concurrency"}
+var w8Names = []string{"partition", "flush", "readfrom", "close-reset-reuse", "reset-without-close", "sink-fails", "slow-sink", "reuse-with-other-concurrency", "reuse-with-new-callback"}
 
 type w8Op struct {
-	kind  int // 0 write, 1 flush, 2 close, 3 reset(new sink), 4 readfrom, 5 apply(concurrency = frame field)
+	kind  int // 0 write, 1 flush, 2 close, 3 reset(new sink), 4 readfrom, 5 apply(concurrency = frame field), 6 apply(new callback, level)
 	data  []byte
 	frame int
 }
@@ -270,6 +271,11 @@ func buildW8(g *prng.Rng, script, conc, bcIdx int) (ops []w8Op, nblocks int) {
 			other = conc + 1
 		}
 		return []w8Op{{kind: 0, data: data[:h]}, {kind: 2}, {kind: 3}, {kind: 5, frame: other}, {kind: 0, data: data[h:], frame: 1}, {kind: 2, frame: 1}}, nb
+	case w8ReuseNewCallback:
+		// what a pooled Writer's next user does: Close, Reset, then options of its own; nothing of the
+		// first frame may still be looking at the Writer when Close has returned
+		h := len(data) / 2
+		return []w8Op{{kind: 0, data: data[:h]}, {kind: 2}, {kind: 3}, {kind: 6}, {kind: 0, data: data[h:], frame: 1}, {kind: 2, frame: 1}}, nb
 	case w8Reuse:
 		h := len(data) / 2
 		return []w8Op{{kind: 0, data: data[:h]}, {kind: 2}, {kind: 3}, {kind: 0, data: data[h:], frame: 1}, {kind: 2, frame: 1}}, nb
@@ -321,6 +327,8 @@ func runW8(c *Ctx, ops []w8Op, conc int, cc, bc bool, extra []lz4.Option, mkSink
 				if conc != 1 { // the sequential reference stays sequential
 					note("Apply", w.Apply(lz4.ConcurrencyOption(op.frame)))
 				}
+			case 6:
+				note("Apply", w.Apply(lz4.OnBlockDoneOption(func(n int) { atomic.AddInt64(blocks, 1) }), lz4.CompressionLevelOption(lz4.Fast)))
 			}
 		}
 	})
